@@ -233,7 +233,7 @@ func genTxn(r *rand.Rand, id int, clients int, o genOpts, keys []string) TxnProg
 				hasCP, cpDepth = true, depth
 			case hasCP && cpDepth == depth && r.Intn(2) == 0:
 				p.Ops = append(p.Ops, Op{Kind: "revert"})
-				hasCP = false
+				hasCP = r.Intn(2) == 0 // the same checkpoint may be reverted to again
 			case depth < 3 && !(hasCP && cpDepth == depth && r.Intn(2) == 0):
 				p.Ops = append(p.Ops, Op{Kind: "stage"})
 				depth++
@@ -338,7 +338,7 @@ func genTxn(r *rand.Rand, id int, clients int, o genOpts, keys []string) TxnProg
 		// a directed savepoint pattern: write, take a savepoint (staging level and/or checkpoint, possibly a
 		// checkpoint INSIDE an open level), overwrite the same key, undo, read back through every path
 		k := pick(r, keys)
-		v := func() string { nops++; return fmt.Sprintf("t%d.%d", id, nops) }
+		v := func() string { nops++; return fmt.Sprintf("t%d.%02d", id, nops) } // one width: overwrites keep the length
 		inLevel := r.Intn(2) == 0
 		if inLevel {
 			p.Ops = append(p.Ops, Op{Kind: "stage"})
@@ -356,6 +356,14 @@ func genTxn(r *rand.Rand, id int, clients int, o genOpts, keys []string) TxnProg
 		}
 		if useCP {
 			p.Ops = append(p.Ops, Op{Kind: "revert"})
+			if r.Intn(2) == 0 {
+				// overwrite again (same length) and revert to the SAME checkpoint a second time
+				p.Ops = append(p.Ops, Op{Kind: "set", Keys: []string{k}, Val: v()})
+				if r.Intn(2) == 0 {
+					p.Ops = append(p.Ops, Op{Kind: "get", Keys: []string{k}})
+				}
+				p.Ops = append(p.Ops, Op{Kind: "revert"})
+			}
 		} else {
 			p.Ops = append(p.Ops, Op{Kind: pick(r, []string{"cleanup", "cleanup", "release"})})
 		}
